@@ -22,8 +22,14 @@
 (*   CycleB cur obs              rest of the cycle                         *)
 (*   Read   file end len res obs                                           *)
 (*   Sync   obs                  observation after a burst                 *)
+(*   Switch to                   the following events are logger `to`'s    *)
+(*   ExtAppend n data | ExtRemove n | ExtTrunc n k      somebody else      *)
+(*                               appends to / removes / cuts short a file  *)
+(*   ExtRmLogs | ExtBlock | ExtUnblock   the logs directory is removed (or *)
+(*                               moved away) / a regular file is put where *)
+(*                               it was / that file is taken away again    *)
 (* obs = [files: <<[n, size, add, whole]>>, dirs: <<n>>, out: <<[n, data]>>,*)
-(*        links: <<[n, to, file, data]>>]                                  *)
+(*        links: <<[n, to, file, data]>>, logs: "dir" | "none" | "file"]   *)
 (* is the directory listing taken with the standard library after the      *)
 (* action: every regular file below logs/ with its size and the bytes      *)
 (* added since the previous observation (whole: its complete content).     *)
@@ -56,13 +62,14 @@ ObsOK(o) == /\ ObsNames(o) = DOMAIN files'
             /\ Len(o.links) = Cardinality(DOMAIN links')
             /\ \A x \in Range(o.links) : links'[x.n] = [to |-> x.to, file |-> x.file, data |-> x.data]
             /\ o.out = outside
+            /\ o.logs = logsSt'
 
 TraceReset == /\ Step("Reset")
-              /\ now' = [d |-> 0, ms |-> 0]
-              /\ conf' = [level |-> 2, iv |-> 10, keep |-> 7, rot |-> TRUE, id |-> <<>>, oname |-> <<>>]
+              /\ now' = T00 /\ logsSt' = "none" /\ self' = 1 /\ parked' = EmptyFn /\ att' = TRUE
+              /\ conf' = Conf0
               /\ files' = EmptyFn /\ dirs' = {} /\ links' = EmptyFn /\ cur' = Closed /\ lastDay' = 0 /\ lastRot' = TRUE
               /\ retainAt' = [d |-> 0, ms |-> 0] /\ recent' = EmptyFn /\ phase' = "new" /\ bleft' = 0
-              /\ acc' = 0 /\ wrote' = EmptyFn /\ gone' = {} /\ fresh' = FALSE /\ supp' = NoSupp
+              /\ acc' = 0 /\ wrote' = EmptyFn /\ gone' = {} /\ fresh' = FALSE /\ vanished' = {} /\ faulted' = FALSE /\ supp' = NoSupp
               /\ deleted' = {} /\ rd' = NoRead
               /\ gseq' = EmptyFn /\ outside' = <<>>
 
@@ -73,6 +80,14 @@ TraceExtDir == /\ Step("ExtDir") /\ ExternalDir(Trace[l].n) /\ UNCHANGED <<gseq,
 TraceExtLink == /\ Step("ExtLink")
                 /\ LET e == Trace[l] IN ExternalLink(e.n, [to |-> e.to, file |-> e.file, data |-> e.data])
                 /\ UNCHANGED <<gseq, outside>>
+
+TraceSwitch == /\ Step("Switch") /\ Trace[l].to \in 1..8 /\ Switch(Trace[l].to) /\ UNCHANGED <<gseq, outside>>
+TraceExtAppend == /\ Step("ExtAppend") /\ ExternalAppend(Trace[l].n, Trace[l].data) /\ UNCHANGED <<gseq, outside>>
+TraceExtRemove == /\ Step("ExtRemove") /\ ExternalRemove(Trace[l].n) /\ UNCHANGED <<gseq, outside>>
+TraceExtTrunc == /\ Step("ExtTrunc") /\ ExternalTruncate(Trace[l].n, Trace[l].k) /\ UNCHANGED <<gseq, outside>>
+TraceExtRmLogs == /\ Step("ExtRmLogs") /\ ExternalRemoveLogs /\ UNCHANGED <<gseq, outside>>
+TraceExtBlock == /\ Step("ExtBlock") /\ ExternalBlock /\ UNCHANGED <<gseq, outside>>
+TraceExtUnblock == /\ Step("ExtUnblock") /\ ExternalUnblock /\ UNCHANGED <<gseq, outside>>
 
 TraceClock == /\ Step("Clock")
               /\ Trace[l].ms \in 0..(DayMs - 1)
@@ -102,7 +117,7 @@ TraceLog ==
          /\ IF em
             THEN \E k \in 1..2 : /\ LogEmit(e.kind, e.pid, e.s, stamp, k)
                                   /\ (Has(e, "raw") => e.raw = stamp \o Payload(e.kind, e.pid, e.s, k))
-            ELSE LogDrop(e.kind) \/ LogSuppress(e.kind, e.pid, e.s)
+            ELSE LogDrop(e.kind) \/ LogSuppress(e.kind, e.pid, e.s) \/ LogVanish(e.kind, e.pid, e.s)
          /\ (seqd => ObsOK(e.obs))
          \* calls of one goroutine appear in program order
          /\ IF Has(e, "g")
@@ -122,6 +137,7 @@ TraceCycleA ==
      IN  /\ IF seqd
             THEN /\ \/ CycleA("none", <<>>, extra, ran)
                     \/ CycleA("close", <<>>, extra, ran)
+                    \/ CycleA("down", <<>>, extra, ran)
                     \/ CycleA("swap", AddOf(e.obs, n), extra, ran)
                  /\ ObsOK(e.obs)
             ELSE /\ goneNs \subseteq DOMAIN files
@@ -134,7 +150,7 @@ TraceBanner == /\ Step("Banner") /\ BannerLine(Trace[l].line) /\ UNCHANGED <<gse
 TraceCycleB ==
   /\ Step("CycleB")
   /\ LET e == Trace[l] IN
-       /\ CycleB(IF cur = Closed THEN AddOf(e.obs, NameOf(conf, conf.rot, now.d)) ELSE <<>>)
+       /\ CycleB(IF cur = Closed /\ logsSt # "file" THEN AddOf(e.obs, NameOf(conf, conf.rot, now.d)) ELSE <<>>)
        /\ ObsOK(e.obs)
        /\ e.cur = cur'
   /\ UNCHANGED <<gseq, outside>>
@@ -148,13 +164,14 @@ TraceRead ==
                   THEN SubSeq(delta, 21 + Len(RedOn) + Len(TagE), Len(delta) - Len(RedOff) - 1)
                   ELSE <<>>
          bey   == [n \in {x.n : x \in Range(outside)} |-> (CHOOSE x \in Range(outside) : x.n = n).data]
-     IN  /\ Read(e.file, e.end, e.len, e.res, High(delta, Min(20, Len(delta))), diag, bey)
+     IN  /\ Read(e.file, e.end, e.len, e.res, High(delta, Min(20, Len(delta))), diag, bey, e.obs.logs)
          /\ ObsOK(e.obs)
   /\ UNCHANGED <<gseq, outside>>
 
 TraceSync == /\ Step("Sync") /\ UNCHANGED <<vars, gseq, outside>> /\ ObsOK(Trace[l].obs)
 
 TraceNext == (\/ TraceReset \/ TraceHome \/ TraceExt \/ TraceExtDir \/ TraceExtLink \/ TraceClock \/ TraceOpen \/ TraceConf
+              \/ TraceSwitch \/ TraceExtAppend \/ TraceExtRemove \/ TraceExtTrunc \/ TraceExtRmLogs \/ TraceExtBlock \/ TraceExtUnblock
               \/ TraceLog \/ TraceCycleA \/ TraceBanner \/ TraceCycleB \/ TraceRead \/ TraceSync) /\ InvAll'
 
 TraceSpec == TraceInit /\ [][TraceNext]_tvars
